@@ -71,7 +71,7 @@ def full_info_grammar(g):
 class ParseStream:
     """Generates (grammar, strict, input) pairs and runs implementation + oracle."""
 
-    def __init__(self, chk, exe, n_grammars, exhaustive_len, extra_inputs, costs=(0, 5), p_anode=0.6, sentences_only=False, max_trees=None, n_families=0):
+    def __init__(self, chk, exe, n_grammars, exhaustive_len, extra_inputs, costs=(0, 5), p_anode=0.6, sentences_only=False, max_trees=None, n_families=0, err_rules=0, family_mutants=False):
         self.chk, self.exe = chk, exe
         self.vary = True
         self.pairs = []
@@ -97,6 +97,10 @@ class ParseStream:
             for w in gen.family_inputs(rng, g):
                 if max_trees is None or gen.count_derivations(g, w) <= max_trees:
                     self.pairs.append((g, False, w))
+                if family_mutants and not sentences_only and rng.random() < 0.5:
+                    m = gen.mutate(rng, g, w, rng.choice([1, 1, 2]))
+                    if len(m) <= 9 and (max_trees is None or gen.count_derivations(g, m) <= max_trees):
+                        self.pairs.append((g, False, m))
         for gi in range(n_grammars):
             strict = rng.random() < 0.5
             profile = rng.choice(['default', 'default', 'nullable', 'units', 'nullable+units'])
@@ -104,6 +108,7 @@ class ParseStream:
             g = gen.rand_wf_grammar(rng, strict, max_nt=rng.choice([1, 2, 3, 4, 5]), max_t=rng.choice([1, 2, 3, 4]),
                                     max_rhs=rng.choice([2, 3, 4]), costs=costs, p_anode=p_anode,
                                     sparse_codes=rng.random() < 0.2,
+                                    err_rules=(rng.choice([0] + list(range(err_rules + 1))) if err_rules else 0),
                                     p_empty=0.3 if 'nullable' in profile else 0.0,
                                     p_unit=0.3 if 'units' in profile else 0.0)
             if g is None:
